@@ -111,6 +111,10 @@ class Report:
                 distinct.add((rid, o['site']))
             for b in r['bad']:
                 distinct.add((rid, b['site']))
+        if os.environ.get('VERIF_LIST'):
+            for rid in self.order:
+                for o in self.rules[rid]['ok']:
+                    print('  ok %s|%s: %s' % (rid, o['site'], o['detail']))
         samples = []
         for rid in self.order:
             r = self.rules[rid]
